@@ -282,16 +282,16 @@ static void far_elements(const pinst *p) {
                     uint64_t got = 0;
                     if (SB_ENTER()) {
                         if (opi == 0) {
-                            p->set(far_map, (uint32_t)i, v);
+                            p->set(far_map, i, v);
                             model_set(model, rel, w, v);
                         } else if (opi == 1) {
-                            got = p->get(far_map, (uint32_t)i);
+                            got = p->get(far_map, i);
                         } else if (opi == 2) {
                             int64_t by = (int64_t)(mask - v);
-                            p->incr(far_map, (uint32_t)i, by);
+                            p->incr(far_map, i, by);
                             model_set(model, rel, w, mask);
                         } else {
-                            p->half(far_map, (uint32_t)i);
+                            p->half(far_map, i);
                             model_set(model, rel, w, v / 2);
                         }
                         SB_LEAVE();
@@ -318,7 +318,7 @@ static void far_elements(const pinst *p) {
         mprotect(far_map + plo, phi - plo, PROT_NONE);
         vh_count("windows", 1);
         char ck[96];
-        snprintf(ck, sizeof ck, "far/w%d/slot%d/%s/index>=2^%d", w, S, p->maxel <= 255 ? "len8" : p->maxel <= 65535 ? "len16" : "len32", 63 - __builtin_clzll(i));
+        snprintf(ck, sizeof ck, "far/w%d/slot%d/%s/index>=2^%d", w, S, p->maxel <= 255 ? "len8" : p->maxel <= 65535 ? "len16" : p->maxel <= 4294967295ULL ? "len32" : "len64", 63 - __builtin_clzll(i));
         vh_class(ck, "%s element %" PRIu64, p->tag, i);
     }
 }
@@ -328,7 +328,7 @@ static void far_elements(const pinst *p) {
 static void sorted_long(const pinst *p) {
     int w = p->width;
     uint64_t mask = (1ULL << w) - 1;
-    uint32_t L = p->maxel < 70000 ? p->maxel - 2 : 70000;
+    uint32_t L = p->maxel < 70000 ? (uint32_t)p->maxel - 2 : 70000;
     uint64_t *ref = malloc(sizeof(uint64_t) * ((size_t)L + 4));
     uint8_t *st = far_map; /* zero pages; big enough */
     size_t bytes = ((size_t)(L + 4) * (size_t)w + 7) / 8 + 64;
@@ -591,6 +591,7 @@ static void sorted_bfs(const pinst *p) {
 int main(int argc, char **argv) {
     vh_init(argc, argv);
     vh_sandbox_init();
+    vh_watchdog(60); /* a library call that makes no progress for a whole period is reported as a hang */
     vh_gb_init(0, 1 << 16);
     int complete = 1;
     for (int k = 0; k < NPINST; k++) {
